@@ -324,6 +324,40 @@ def onecopy(ctx: Any) -> List[Ob]:
         if 'is stored in' in o.statement:
             o.rule = 'C20.ONECOPY'
             obs.append(o)
+    # `Questions are identified by case-insensitive name, type and class`, for the one map that is keyed by questions: the
+    # duplicate-question history.  Every key it is stored or looked up under is the question itself (so its own hash and
+    # equality -- the congruence tables -- decide) or is built from lower-cased parts; a key built from the name as spelled makes
+    # the same question in another spelling a different entry
+    from sa.ky import Lowered, key_sites
+
+    low = Lowered(ctx)
+    qh = ctx.prog.cls('zeroconf._history.QuestionHistory')
+    n_keys = 0
+    for f in sorted(qh.methods.values(), key=lambda g: g.name):
+        me = f.params[0] if f.params else 'self'
+        for d, k, how in key_sites(f, lambda e, me=me: self_attr(e, me) == '_history'):
+            n_keys += 1
+            td = ctx.ty.type_of(f.module.name, k)
+            names = ctx.ty.inst_names(td) if td else []
+            if any(n_.endswith('.DNSQuestion') or n_.endswith('.DNSEntry') for n_ in names):
+                obs.append(ob('C20.ONECOPY', f, k, f'the history is keyed ({how}) by the question itself: its hash and equality decide', True))
+                continue
+            loop_vars = {t.id for lp in walk_local_ordered(f.node) if isinstance(lp, ast.For) for t in ast.walk(lp.target) if isinstance(t, ast.Name)}
+            if isinstance(k, ast.Name) and k.id in loop_vars:
+                obs.append(ob('C20.ONECOPY', f, k, f'the key ({how}) is one the history already holds (taken from an iteration over its own keys)', True))
+                continue
+            parts = list(k.elts) if isinstance(k, ast.Tuple) else [k]
+            bad = []
+            for part in parts:
+                tdp = ctx.ty.type_of(f.module.name, part)
+                if tdp and tdp[0] == 'inst' and tdp[1] in ('builtins.int', 'builtins.bool'):
+                    continue
+                okl, whyl = low.is_lowered(f, part)
+                if not okl:
+                    bad.append(f'`{norm(part)}`: {whyl}')
+            obs.append(ob('C20.ONECOPY', f, k, f'a history key ({how}) that is not the question itself is built from lower-cased text and numbers only', not bad, '; '.join(bad)[:300]))
+    if n_keys < 2:
+        raise AnalysisError(f'anchor vanished: keyed accesses to QuestionHistory._history (found {n_keys})')
     return obs
 
 
